@@ -199,15 +199,15 @@ WindowsOK(ws) == /\ \A i \in 1..Len(ws) : ws[i][1] \in 0..255 /\ Len(ws[i][2]) \
                  /\ \A i \in 1..Len(ws) - 1 : ws[i][1] < ws[i + 1][1]
 IsDigit(b) == b >= 48 /\ b <= 57
 IsAlnum(b) == IsDigit(b) \/ (b >= 65 /\ b <= 90) \/ (b >= 97 /\ b <= 122)
-\* [-]d{1,2}[.d{1,3}] with nothing else: surely a decimal number inside +-90
+\* [-]d[.d{1,3}] or [-]dd[.d{1,3}] with dd <= 89, nothing else: surely a decimal number inside +-90
 SimpleDecimal(s) ==
     LET t == IF s # <<>> /\ s[1] = 45 THEN Tail(s) ELSE s
         dot == {i \in 1..Len(t) : t[i] = 46} IN
     /\ Len(t) >= 1
-    /\ IF dot = {} THEN Len(t) <= 2 /\ \A i \in 1..Len(t) : IsDigit(t[i])
+    /\ IF dot = {} THEN Len(t) <= 2 /\ (\A i \in 1..Len(t) : IsDigit(t[i])) /\ (Len(t) = 2 => t[1] <= 56)
        ELSE /\ Cardinality(dot) = 1
             /\ LET d == CHOOSE i \in dot : TRUE IN
-               /\ d \in 2..3 /\ Len(t) - d \in 1..3
+               /\ d \in 2..3 /\ Len(t) - d \in 1..3 /\ (d = 3 => t[1] <= 56)
                /\ \A i \in 1..Len(t) : i # d => IsDigit(t[i])
 
 FieldSem(f, x, vals) ==
@@ -257,7 +257,7 @@ SvcbFree(v) == (v[1] = 0 /\ v[3] # <<>>) \/ (\E k \in Keys(v[3]) : k \in {7, 10}
 CeilDiv8(n) == (n + 7) \div 8
 PlainNameOK(b) == LET r == NameWalk(b, 1, Len(b), 1, <<>>, 0, 0) IN r.ok /\ r.p = Len(b) + 1   \* big = 1: no pointer possible
 Ascii(b) == \A i \in 1..Len(b) : b[i] < 128
-EcsPadZero(src, addr) == (src % 8 = 0) \/ (addr # <<>> /\ Last(addr) % (2 ^ (8 - src % 8)) = 0)
+EcsPadZero(src, addr) == (src % 8 = 0) \/ (addr # <<>> /\ Last(addr) % (2 ^ (8 - (src % 8))) = 0)
 OptOK(c, b) ==
     CASE c = 8  -> /\ Len(b) >= 4
                    /\ LET fam == U16At(b, 1) IN
